@@ -10,6 +10,7 @@ the CLI) are checked to be permutations, sorted for one-kind inputs (under the r
 compared with the model."""
 import os, time
 from .. import common as C
+from .. import ctie
 from extract import cmp_table
 
 INT_MIN, INT_MAX = -(2 ** 63), 2 ** 63 - 1
@@ -1136,6 +1137,7 @@ THEOREMS_ABOUT_MODEL = "cmp_antisymm, trichotomy, lt_iff_gt_swapped, le_iff_lt_o
 def run(ctx):
     info = translate(ctx)
     proof = C.prove(ctx, "HawkModel.Props.C11", leanchecker=(ctx.tier == "thorough"))
+    tie = ctie.tie(ctx, "C11", leanchecker=(ctx.tier == "thorough"))   # leaf comparators / hint table of run.c: translated C = model
     libdir = C.build_libhawk(ctx)
     exe = C.cc_harness(ctx, os.path.join(C.VERIF, "harness", "cmp_h.c"), link_lib=libdir)
     sess = Session(ctx, exe)
@@ -1261,7 +1263,7 @@ def run(ctx):
     zls = zls_probe(ctx, sess)
     dist = dict(sorted(stats.items()))
     return C.finish(
-        ctx, [proof], evaluations, len(nontrivial) + stats.get("asort_one_kind", 0) + stats.get("cli_one_kind", 0),
+        ctx, [proof] + tie, evaluations, len(nontrivial) + stats.get("asort_one_kind", 0) + stats.get("cli_one_kind", 0),
         "pool of %d values (every scalar type, numeric strings made by hawk_rtx_makenstrvalwithoochars with v_nstr 0/1/2, boundary integers, long-double-only floats, "
         "function/map/array values) + seeded random values, ALL ordered pairs under %d configurations (IGNORECASE x NCMPONSTR x STRIPSTRSPC x FLEXMAP); for every scalar pair the 11 laws "
         "are evaluated on the real outputs (property oracle, model-free) and every output line is compared with the Lean driver; asort/asorti in-process and through the CLI on maps, hawk::array arrays, nil/empty sources; "
@@ -1270,7 +1272,7 @@ def run(ctx):
         extra_cov=dict(branch_distribution=dist, side_observation_static_empty_string=zls, descriptor_instability=sorted(UNSTABLE)[:10], law_violations=law_counts, configurations=len(cfgs),
                        property_hits=len(hits), correspondence_problems=len(corr),
                        translator=dict(entries=len(info["table"]) if info else 0, base_routines_changed_since_transcription=(info or {}).get("changed_bases", []), base_digests={"%d,%d" % k: v for k, v in (info["digests"].items() if info else [])})),
-        trusted=["number<->string conversions (hawk_oochars_to_num/_to_int/_to_flt, hawk_rtx_getvaloocstr incl. CONVFMT, hawk_rtx_duputobchars) and case folding are PARAMETERS of the model; "
+        trusted=[ctie.TRUSTED % "C11", "number<->string conversions (hawk_oochars_to_num/_to_int/_to_flt, hawk_rtx_getvaloocstr incl. CONVFMT, hawk_rtx_duputobchars) and case folding are PARAMETERS of the model; "
                  "the driver is instantiated with the implementation's own conversion results (harness `desc`/`fold`)",
                  "hawk_qsortx beyond its insertion-sort path (nmemb >= 7: median selection, partitioning) is not transcribed; its output is checked dynamically (permutation, sortedness, "
                  "element-wise comparator-equality with the model's sorted list, justified by sorted_perm_unique)",
